@@ -163,34 +163,36 @@ def main():
                 distinct += len(set(" ".join(t for t in l.split(" ") if not t.startswith(("seed=", "run="))) for l in lines))
                 samples += [{"scenario": s["name"], "line": l[:300]} for l in lines[:3]]
                 dist[s["name"] + ".runs"] = len(lines)
-                # a machine busy with other work can make a run miss one of the harness' own time bounds
-                # (hang / not-within-N-seconds verdicts). Only then, and only for verdicts of that class,
-                # the scenario is run once more with the same seed and the verdict must show again in the
-                # same run; every other verdict is reported as it is.
-                timing = re.compile(r"hang|timeout|timed-out|stuck|not-[a-z-]*-in-\d|slow|deadline|no-progress|killed")
-                def vkey(l):
-                    m = re.search(r"\brun=(\S+)", l)
-                    kinds = tuple(sorted(k for k in l.split(" VIOL", 1)[1].split() if timing.search(k)))
-                    return (m.group(1) if m else "", kinds)
-                suspicious = [l for l in lines if " VIOL" in l and all(timing.search(k) for k in l.split(" VIOL", 1)[1].split())
-                              and not lib.known_match(prop, "input %s -> %s" % (s["name"], l))]
+                # A machine busy with other work can make a run miss one of the harness' own time bounds
+                # (a few seconds for "the handler was released", "the call returned", ...). Only when the
+                # machine is oversubscribed, a scenario that reported violations is run once more with the
+                # same seed, and a verdict counts if a verdict of the same kind shows again: a defect of
+                # the library shows again (the schedules are seeded), a delay of the machine does not.
+                def kinds(l):
+                    return set(re.sub(r"\d+", "#", k) for k in l.split(" VIOL", 1)[1].replace(" VIOL ", " ").split())
+                suspicious = [l for l in lines if " VIOL" in l and not lib.known_match(prop, "input %s -> %s" % (s["name"], l))]
                 try:
                     load = os.getloadavg()[0] / max(1, os.cpu_count() or 1)
                 except OSError:
                     load = 0.0
                 if suspicious and load > 0.75:
                     out2 = out_path + ".again"
+                    again = None
                     try:
                         with open(out2, "wb") as f:
                             subprocess.run(sub(s["scenario"]), stdout=f, stderr=subprocess.PIPE, timeout=s.get("timeout", 1500))
-                        again = set(vkey(l) for l in open(out2, errors="replace") if " VIOL" in l)
+                        again = set()
+                        for l in open(out2, errors="replace"):
+                            if " VIOL" in l:
+                                again |= kinds(l)
                     except subprocess.TimeoutExpired:
-                        again = set(vkey(l) for l in suspicious)
-                    dropped = [l for l in suspicious if vkey(l) not in again]
-                    if dropped:
-                        dist[s["name"] + ".time_bound_verdicts_not_reproduced_on_loaded_machine"] = len(dropped)
-                        dist[s["name"] + ".loadavg_per_core"] = round(load, 2)
-                        lines = [l for l in lines if l not in dropped]
+                        pass
+                    if again is not None:
+                        dropped = [l for l in suspicious if not (kinds(l) & again)]
+                        if dropped:
+                            dist[s["name"] + ".verdicts_not_reproduced_on_loaded_machine"] = len(dropped)
+                            dist[s["name"] + ".loadavg_per_core"] = round(load, 2)
+                            lines = [l for l in lines if l not in dropped]
                 for l in lines:
                     if " VIOL" in l:
                         flagged_n += 1
